@@ -92,11 +92,16 @@ def all_jobs(nodes):
 def gen_state_nodes(rng):
     """A node split over three fields with a partial combiner, and a downstream node that inherits the remaining
     state and reads its group element-wise (the state-propagating shape of C03/C17)."""
-    while True:
-        dims = [rng.choice([1, 2, 2, 3]) for _ in range(3)]
-        if 4 <= dims[0] * dims[1] * dims[2] <= 12:
-            break
-    comb = rng.choice([["p"], ["p"], ["q"], ["r"], ["p", "q"], ["q", "r"], ["p", "r"]])
+    if rng.random() < 0.7:
+        # the order-sensitive shape: combine one field, two state dimensions (each >= 2) remain
+        dims = rng.choice([[2, 2, 2], [3, 2, 2], [2, 3, 2], [2, 2, 3]])
+        comb = [rng.choice("pqr")]
+    else:
+        while True:
+            dims = [rng.choice([1, 2, 2, 3]) for _ in range(3)]
+            if 4 <= dims[0] * dims[1] * dims[2] <= 12:
+                break
+        comb = rng.choice([["p"], ["q"], ["r"], ["p", "q"], ["q", "r"], ["p", "r"]])
     rem = 1
     for f, d in zip("pqr", dims):
         if f not in comb:
@@ -383,28 +388,61 @@ def nontrivial(case):
         sum(njobs(n) for n in case["nodes"]) >= 3
 
 
-def evaluate(ctx, name, cases, obs, spec_defs, spec_fn, variant="repaired"):
+TIES = {"async": "tie_async", "sync": "tie_sync", "rerun": "tie_rerun", "state": "tie_sched"}
+NO_TIE = "(fun _ : case_t => true)"      # cf / rerun_gen / rerun_sync / rerun_cf / state_sync / state_cf: spec only
+
+
+def evaluate(ctx, name, cases, obs, spec_defs, spec_fn, variant="repaired", shard=36):
     """Let Coq evaluate model (tie) and spec on every observed run.  Returns (bad, usable) where bad =
-    {"tie": [case indices], "spec": [case indices]}."""
+    {"tie": [case indices], "spec": [case indices]}.  All modes go into the same shard files (one list of cases
+    and two Evals per mode present in the shard); the shards are compiled in parallel."""
+    from concurrent.futures import ThreadPoolExecutor
     usable = [i for i, o in enumerate(obs) if o.get("outcome") in ("ok", "error") and o.get("order")]
     bad = {"tie": [], "spec": []}
-    none = "(fun _ : case_t => true)"
-    for mode, tie in (("async", "tie_async"), ("sync", "tie_sync"), ("cf", none), ("rerun", "tie_rerun"),
-                      ("rerun_sync", none), ("rerun_cf", none), ("state", "tie_sched"), ("state_sync", none),
-                      ("state_cf", none)):
-        idx = [i for i in usable if cases[i]["mode"] == mode]
-        if not idx:
-            continue
-        enc = []
-        for i in idx:
-            o = obs[i]
-            if mode == "sync" and o["outcome"] == "error":
-                o = dict(o, polls=o["polls"] + [dict(raised="job")])  # status 1: the job's exception escaped
-            enc.append(enc_case(cases[i], o))
-        res = coqio.run_cases(ctx.scratch, "%s_%s" % (name, mode), IMPORTS, "case_t", enc,
-                              {"tie": tie, "spec": spec_fn}, extra=defs(variant) + spec_defs, shard=40)
-        for kind in ("tie", "spec"):
-            bad[kind] += [idx[j] for j in res[kind]]
+    files = []
+    for k in range(0, len(usable), shard):
+        part = usable[k:k + shard]
+        bymode = {}
+        for i in part:
+            bymode.setdefault(cases[i]["mode"], []).append(i)
+        path = os.path.join(ctx.scratch.dir, "cases_%s_%d.v" % (name, k // shard))
+        plan = []
+        with open(path, "w") as f:
+            f.write("From Pydra Require Import Base.Prelude %s.\n" % " ".join(IMPORTS))
+            f.write("Set Printing Width 1000000.\nSet Printing Depth 1000000.\n")
+            f.write(defs(variant) + spec_defs + "\n")
+            for n, (mode, idx) in enumerate(sorted(bymode.items())):
+                enc = []
+                for i in idx:
+                    o = obs[i]
+                    if mode == "sync" and o["outcome"] == "error":
+                        o = dict(o, polls=o["polls"] + [dict(raised="job")])  # status 1: the job's exception escaped
+                    enc.append(enc_case(cases[i], o))
+                f.write("Definition cases%d : list case_t :=\n [%s]%%list.\n" % (n, ";\n  ".join(enc)))
+                f.write("Eval vm_compute in (bad (%s) cases%d).\n" % (TIES.get(mode, NO_TIE), n))
+                f.write("Eval vm_compute in (bad (%s) cases%d).\n" % (spec_fn, n))
+                plan.append(idx)
+        files.append((path, plan))
+
+    def comp(item):
+        path, plan = item
+        rc, out, _ = coqio.coqc(path, 900)
+        return path, plan, rc, out
+
+    errors = []
+    with ThreadPoolExecutor(max_workers=8) as ex:
+        for path, plan, rc, out in ex.map(comp, files):
+            vals = coqio.split_evals(out) if rc == 0 else []
+            if rc != 0 or len(vals) != 2 * len(plan):
+                errors.append((path, out[-2000:]))
+                continue
+            for n, idx in enumerate(plan):
+                bad["tie"] += [idx[j] for j in coqio.parse_nat_list(vals[2 * n])]
+                bad["spec"] += [idx[j] for j in coqio.parse_nat_list(vals[2 * n + 1])]
+    if errors:
+        raise coqio.CoqCaseError(errors)
+    bad["tie"].sort()
+    bad["spec"].sort()
     return bad, usable
 
 
